@@ -219,7 +219,11 @@ CLAIMED = {
              "remaining input (window_nonempty, C05.runW_refines); reservations from announced lengths are bounded by one buffer "
              "(reserve_bounded); timestamp arithmetic stays in int64 (C17.addTimeOffset_no_overflow), integer reads saturate (C07); "
              "skip_item is iterative with linear fuel (C07.skip_exact_linear); every index get_readable_dname reads/writes is in bounds for "
-             "EVERY byte string (dname_in_bounds). Failing-input search on the implementation: valid files, structure-aware mutations "
+             "EVERY byte string (dname_in_bounds); termination in linear time on EVERY byte string, well-formed or not: value_reader_fuel_never_binds / "
+             "skip_fuel_never_binds / file_reader_fuel_never_binds / block_reader_fuel_never_binds - the loops of read_array, of every struct "
+             "reader, of read_string's chunks and of skip_item's levels are modelled with fuel, and above 2|input|+2 (skip: 3|input|+2) the result "
+             "does not depend on it: every iteration consumes a byte or closes a level a consumed byte opened (the correspondence drivers run with "
+             "4|input|+10, so what they report on hostile files is never a fuel artefact). Failing-input search on the implementation: valid files, structure-aware mutations "
              "(lying length heads up to 2^64-1, tree edits, truncation), byte mutations, nesting bombs, random bytes through reader + "
              "accessors + all renderers + block copies in-process under ASan/UBSan (allocation cap, alarm) and through the 5 CLI tools. Added after the seeded rounds: every numeric field x boundary value and every string x hostile payload (printf directives, NULs) through reader and tools; the largest single allocation request per input must stay proportional to it (sanitizer malloc hook); tables of look-alike entries must read as fast as same-shape controls (time).",
         note="Partial proof by nature: that every memory access of the C++ is one of the modelled kinds is established only by the "
